@@ -7,15 +7,22 @@
    side pairing + area = Delaunay, dual = Voronoi).
    The post-processing code (voronization.py:82-204) IS modelled (Model/VoronoiPost.v, tied to the code by the
    correspondence run K of harness/c03.py on the same scipy Voronoi record); the C03_post_* theorems at the end
-   of this file are about that model.  post_correct is proved at the GRAPH level (C03_post_correct_*: for a record that
+   of this file are about that model.  post_correct is proved: C03_post_correct_graph / _trivalent (for a record that
    is periodic near the unit cell, Model/VoronoiPeriodic.pvor_ok, the returned lattice has exactly the Voronoi vertices
    in the cell as vertices and exactly the ridges touching the cell, one per translation class, as edges, crossing =
-   cell offset, degree = number of ridges, 2E = 3V).  NOT proved: the last link to check_dual (that the seeds around a
-   kept vertex form the certificate's Delaunay triangle: needs ridge_points / Qhull's geometry) and the plaquettes. *)
+   cell offset, degree = number of ridges, 2E = 3V) and C03_post_correct_dual (if moreover the record is dual to a
+   triangle assignment, Model/VoronoiDual.dual_ok, the returned lattice PASSES check_dual for the certificate read off
+   the record).  C03_post_correct_dual_t / _counts_t: the same conclusions from the INDEX-LEVEL periodicity
+   (Model/VoronoiPeriodicTol.pvor_t_ok, through the nearest-vertex map koala itself uses), which does not need exact
+   replication and holds for Qhull's float circumcentres too (shift_vertices=False).
+   All hypotheses are booleans about scipy's record, evaluated per case by the harness.
+   NOT proved: that Qhull's record satisfies them, and the plaquette clauses. *)
 From Coq Require Import List ZArith Bool Arith QArith.
 From Koala Require Import Model.Lattice Model.Delaunay Proofs.DelaunayFacts.
 From Koala Require Import Model.VoronoiPost Proofs.VoronoiPostFacts.
 From Koala Require Import Model.VoronoiPeriodic Proofs.VoronoiPostCorrect.
+From Koala Require Import Model.VoronoiDual Proofs.VoronoiPostDual.
+From Koala Require Import Model.VoronoiPeriodicTol Proofs.VoronoiPostTol.
 From Coq Require Import Sorted.
 Import ListNotations.
 Open Scope Z_scope.
@@ -504,3 +511,142 @@ Example C03_post_trivalent_nonvacuous :
   post_process_sorted false 4 [] ex_post_hex =
     Ok (4, ([(1, 1); (3, 3)], [(0, 1); (0, 1); (0, 1)]%nat, [(0, 0); (0, -1); (-1, 0)])).
 Proof. vm_compute. split; reflexivity. Qed.
+
+(* ==================================================================================================
+   post_correct, the last link: the returned lattice passes check_dual.
+   Additional hypothesis (Model/VoronoiDual.dual_ok, a boolean about the RECORD and a triangle assignment T - one
+   Delaunay triangle (three sites, ccw, smallest site first) per Voronoi vertex, which the harness reads off
+   scipy's ridge_points - not about the returned lattice):
+     D1 the triangle of the image in the cell of the outer end of a crossing ridge is the translated triangle;
+     D2 the triangles of the two ends of every finite ridge touching the cell share a side (offset 0);
+     D3 no directed side modulo translation belongs to two (vertex in the cell, side) slots;
+     D4 every vertex in the cell: its triangle is positively oriented, its reference point (circumcentre / centroid)
+        lies in the cell and the vertex sits within tolS of it.
+   ================================================================================================== *)
+
+(* "edges join exactly the pairs of triangles sharing a side, crossing = cell offset between them": every returned
+   ridge ((j,k),c) joins vertices whose triangles share a side after translating the second by c *)
+Theorem C03_post_edges_shared_side : forall S vs rv T e, pvor S vs rv ->
+  d1_ok S vs rv T = true -> d2_ok S vs rv T = true ->
+  In e (pbc_edges S vs rv) ->
+  exists s s', (s < 3)%nat /\ (s' < 3)%nat /\
+    side_shared (nth (fst (fst e)) T tri0) (nth (snd (fst e)) T tri0) (snd e) s s'.
+Proof. exact pbc_edges_shared_side. Qed.
+Print Assumptions C03_post_edges_shared_side.
+
+(* post_correct: for every enumeration order accepted by the model, a periodic, trivalent record that is dual to T
+   yields a lattice that passes the (proved sound, C03_check_dual_sound) checker check_dual, with the certificate
+   [cert_of T B order] = the triangles of the kept vertices in output order (B: box hints, irrelevant here) and vt =
+   the identity *)
+Theorem C03_post_correct_dual : forall order_of shift S points v S' vs ps ed cr tolS pts T B,
+  shifted_vertices shift S points v = Ok (S', vs) ->
+  pvor S' vs (ridge_vertices v) -> trivalent_ok S' vs (ridge_vertices v) = true ->
+  dual_ok S' tolS shift pts vs (ridge_vertices v) T = true ->
+  post_process order_of shift S points v = Ok (S', (ps, ed, cr)) ->
+  let L := mkLattice S' ps ed cr in
+  let order := order_of (edge_ends (pbc_edges S' vs (ridge_vertices v))) in
+  check_dual S' tolS shift pts (cert_of T B order) L (seq 0 (length order)) = true.
+Proof. exact post_correct_dual. Qed.
+Print Assumptions C03_post_correct_dual.
+
+(* "... so the lattice is trivalent with 2N vertices and 3N edges": when moreover check_delaunay validates that same
+   certificate (B: the box hints it needs; evaluated per case), the returned lattice has 2N vertices and 3N edges *)
+Theorem C03_post_correct_counts : forall order_of shift S points v S' vs ps ed cr tolS pts T B w,
+  shifted_vertices shift S points v = Ok (S', vs) ->
+  pvor S' vs (ridge_vertices v) -> trivalent_ok S' vs (ridge_vertices v) = true ->
+  dual_ok S' tolS shift pts vs (ridge_vertices v) T = true ->
+  post_process order_of shift S points v = Ok (S', (ps, ed, cr)) ->
+  let L := mkLattice S' ps ed cr in
+  let order := order_of (edge_ends (pbc_edges S' vs (ridge_vertices v))) in
+  check_delaunay S' w pts (cert_of T B order) = true ->
+  nV L = (2 * length pts)%nat /\ nE L = (3 * length pts)%nat.
+Proof. exact post_correct_counts. Qed.
+Print Assumptions C03_post_correct_counts.
+
+(* non-vacuity: the one-seed square torus (cell of side 4, seed at the origin, the two triangles of the unit square,
+   Voronoi vertices A = (3,1), B = (1,3) within tolS = 1 of the common circumcentre (2,2), the three A-B ridges present
+   on both sides): all hypotheses hold, and (as the theorem says) check_dual accepts the model's output *)
+Definition ex_dual_vor : vor := mkVor
+  [(3, 1); (1, 3); (1, -1); (5, 3); (3, 5); (-1, 1)]
+  [(0, 1); (0, 2); (0, 3); (1, 4); (1, 5); (-1, 4)]
+  [(0, 1); (0, 2); (0, 3); (1, 4); (1, 5); (4, 5)]%nat.
+Definition ex_dual_T : list tri := [
+  ((0%nat, (0, 0)), (0%nat, (1, 0)), (0%nat, (1, 1)));
+  ((0%nat, (0, 0)), (0%nat, (1, 1)), (0%nat, (0, 1)));
+  ((0%nat, (0, -1)), (0%nat, (1, 0)), (0%nat, (0, 0)));
+  ((0%nat, (1, 0)), (0%nat, (2, 1)), (0%nat, (1, 1)));
+  ((0%nat, (0, 1)), (0%nat, (1, 1)), (0%nat, (1, 2)));
+  ((0%nat, (-1, 0)), (0%nat, (0, 0)), (0%nat, (0, 1)))].
+Example C03_post_dual_nonvacuous :
+  post_hyps false 4 [] ex_dual_vor = Some (true, true) /\
+  post_dual_hyp false 4 1 [] [(0, 0)] ex_dual_vor ex_dual_T = Some true /\
+  post_process_sorted false 4 [] ex_dual_vor =
+    Ok (4, ([(3, 1); (1, 3)], [(0, 1); (0, 1); (0, 1)]%nat, [(0, 0); (1, 0); (0, -1)])) /\
+  check_dual 4 1 false [(0, 0)] (cert_of ex_dual_T [] [0; 1]%nat)
+    (mkLattice 4 [(3, 1); (1, 3)] [(0, 1); (0, 1); (0, 1)]%nat [(0, 0); (1, 0); (0, -1)]) [0; 1]%nat = true.
+Proof. vm_compute. repeat split; reflexivity. Qed.
+
+(* ==================================================================================================
+   post_correct from the INDEX-LEVEL periodicity.  [pvor_ok] needs the image in the cell of a vertex to BE a vertex,
+   which float circumcentres never satisfy (a triangle and its translate give circumcentres differing in the last
+   bits).  koala only uses the vertex NEAREST to the image.  [pvor_t_ok] (Model/VoronoiPeriodicTol.v) states the
+   periodicity through that map img(o) = nearest vertex to the image of o: for every ridge crossing the cell boundary
+   with inner end i and outer end o in the cell c: img(o) lies in the cell, is not i, and a finite ridge joins img(o)
+   to a vertex a' outside the cell, in the cell -c, with img(a') = i; the directed periodic edges (i, img o, c) of the
+   crossing ridges are pairwise different; plus the index/duplicate conditions of pvor_ok.  [pvor_t] is the Prop.
+   ================================================================================================== *)
+Theorem C03_post_pvor_t_ok_sound : forall S vs rv, pvor_t_ok S vs rv = true -> pvor_t S vs rv.
+Proof. exact pvor_t_ok_spec. Qed.
+Print Assumptions C03_post_pvor_t_ok_sound.
+
+(* degree = number of finite ridges, from the index-level periodicity *)
+Theorem C03_post_degree_t : forall S vs rv v, pvor_t S vs rv -> (v < length vs)%nat ->
+  in_unit S (nth v vs (0, 0)) = true ->
+  deg v (pbc_edges S vs rv) = length (ridges_at (Z.of_nat v) rv).
+Proof. exact pbc_degree_t. Qed.
+Print Assumptions C03_post_degree_t.
+
+(* no periodic edge is returned twice, not even reversed *)
+Theorem C03_post_edges_keys_NoDup_t : forall S vs rv, pvor_t S vs rv ->
+  NoDup (map edge_key (pbc_edges S vs rv)).
+Proof. exact pbc_edges_keys_NoDup_t. Qed.
+Print Assumptions C03_post_edges_keys_NoDup_t.
+
+(* post_correct: trivalent, 2E = 3V, and the returned lattice passes check_dual for the certificate read off the record *)
+Theorem C03_post_correct_dual_t : forall order_of shift S points v S' vs ps ed cr tolS pts T B,
+  shifted_vertices shift S points v = Ok (S', vs) ->
+  pvor_t S' vs (ridge_vertices v) -> trivalent_ok S' vs (ridge_vertices v) = true ->
+  dual_ok S' tolS shift pts vs (ridge_vertices v) T = true ->
+  post_process order_of shift S points v = Ok (S', (ps, ed, cr)) ->
+  let L := mkLattice S' ps ed cr in
+  let order := order_of (edge_ends (pbc_edges S' vs (ridge_vertices v))) in
+  (forall n, (n < nV L)%nat -> count_ends L n = 3%nat) /\ (2 * nE L = 3 * nV L)%nat /\
+  check_dual S' tolS shift pts (cert_of T B order) L (seq 0 (length order)) = true.
+Proof. exact post_correct_dual_t. Qed.
+Print Assumptions C03_post_correct_dual_t.
+
+(* ... and 2N vertices, 3N edges when check_delaunay validates that certificate *)
+Theorem C03_post_correct_counts_t : forall order_of shift S points v S' vs ps ed cr tolS pts T B w,
+  shifted_vertices shift S points v = Ok (S', vs) ->
+  pvor_t S' vs (ridge_vertices v) -> trivalent_ok S' vs (ridge_vertices v) = true ->
+  dual_ok S' tolS shift pts vs (ridge_vertices v) T = true ->
+  post_process order_of shift S points v = Ok (S', (ps, ed, cr)) ->
+  let L := mkLattice S' ps ed cr in
+  let order := order_of (edge_ends (pbc_edges S' vs (ridge_vertices v))) in
+  check_delaunay S' w pts (cert_of T B order) = true ->
+  nV L = (2 * length pts)%nat /\ nE L = (3 * length pts)%nat.
+Proof. exact post_correct_counts_t. Qed.
+Print Assumptions C03_post_correct_counts_t.
+
+(* non-vacuity: the two toy records above satisfy the index-level hypotheses too; and a record whose translated copies
+   are OFF by one unit (vertex (5,2) instead of (5,1), ...: not exactly periodic, pvor_ok fails) still satisfies them *)
+Definition ex_tol_vor : vor := mkVor
+  [(1, 1); (3, 3); (-1, 3); (3, -1); (5, 2); (2, 5)]
+  [(0, 1); (0, 2); (0, 3); (1, 4); (1, 5); (-1, 4)]
+  [(0, 1); (0, 2); (0, 3); (1, 4); (1, 5); (4, 5)]%nat.
+Example C03_post_pvor_t_nonvacuous :
+  post_hyps_t false 4 [] ex_post_hex = Some (true, true) /\
+  post_hyps_t false 4 [] ex_dual_vor = Some (true, true) /\
+  post_hyps false 4 [] ex_tol_vor = Some (false, true) /\
+  post_hyps_t false 4 [] ex_tol_vor = Some (true, true).
+Proof. vm_compute. repeat split; reflexivity. Qed.
